@@ -114,7 +114,9 @@ func (r ResolveResult) Targets(network string) iter.Seq[Target] {
 			}
 			alpn := h.ALPN
 			if !h.NoDefaultALPN {
-				alpn = append(alpn, "http/1.1")
+				// Don't write into the record's backing array,
+				// which is shared with other results.
+				alpn = append(slices.Clone(alpn), "http/1.1")
 			}
 			if h.Target != "" {
 				for _, a := range r.Additional[h.Target] {
